@@ -30,6 +30,40 @@ func rulesC19(cx *Ctx) []Obligation {
 					continue
 				}
 				n++
+				{
+					tkey := "C19/O19.1/fresh-target/" + P.FnName(f)
+					tdesc := "json.Unmarshal decodes into a fresh zero-valued local (encoding/json decodes in place and leaves absent fields untouched: a recycled or shared target carries values of an earlier document into this one)"
+					tgt := c.Common().Args[1]
+					for {
+						if mi, ok := tgt.(*ssa.MakeInterface); ok {
+							tgt = mi.X
+							continue
+						}
+						if ct, ok := tgt.(*ssa.ChangeType); ok {
+							tgt = ct.X
+							continue
+						}
+						break
+					}
+					al, isAlloc := tgt.(*ssa.Alloc)
+					fresh := isAlloc
+					if isAlloc {
+						// no store into the local before the call (it is still the zero value)
+						for _, r := range *al.Referrers() {
+							if st, ok := r.(*ssa.Store); ok && st.Addr == ssa.Value(al) && (st.Block() != c.Block() || instrBefore(st, c)) {
+								fresh = false
+							}
+						}
+					}
+					if f.Name() == "UnmarshalJSON" && f.Signature.Recv() != nil {
+						// the json.Unmarshaler protocol: the target is the receiver the outer (fresh) decode handed in
+						obs = append(obs, good(tkey, tdesc, P.Pos(c.Pos())+" (custom UnmarshalJSON decoding into its receiver)"))
+					} else if fresh {
+						obs = append(obs, good(tkey, tdesc, P.Pos(c.Pos())))
+					} else {
+						obs = append(obs, bad(tkey, tdesc, "the decode target is "+tgt.String()+", not a fresh local", P.Pos(c.Pos())))
+					}
+				}
 				key := "C19/O19.1/unmarshal-error/" + P.FnName(f)
 				desc := "the error of json.Unmarshal is checked and leads to a panic or is returned (malformed documents are refused, not half-decoded)"
 				okk := false
@@ -446,6 +480,21 @@ func ruleIndexDiscipline(cx *Ctx) []Obligation {
 				default:
 					obs = append(obs, bad(key, desc, "the wrapped value is not a decoded 64-bit value: "+a.String(), P.Pos(c.Pos())))
 				}
+			}
+		}
+	}
+	for _, f := range fns {
+		for _, b := range f.Blocks {
+			for _, ins := range b.Instrs {
+				mi, ok := ins.(*ssa.MakeInterface)
+				if !ok {
+					continue
+				}
+				bt, isB := mi.X.Type().Underlying().(*types.Basic)
+				if !isB || bt.Info()&types.IsString == 0 || !strings.HasSuffix(mi.Type().String(), "frontend.Variable") {
+					continue
+				}
+				obs = append(obs, bad("C19/O19.3/no-string-variable/"+P.FnName(f), "document strings are parsed explicitly in base 10; none is handed to gnark as a string (gnark parses strings with base auto-detection: \"010\" = 8, \"0x10\" = 16)", "a string becomes a frontend.Variable at "+P.Pos(mi.Pos()), P.Pos(mi.Pos())))
 			}
 		}
 	}
